@@ -80,7 +80,13 @@ def run_case(ctx, case):
     descs = {d["name"]: d for d in case["worktable"]}
     interp = gwl.Interp(case["worktable"], dev)
     feeder = progmon.RecordFeeder(ctx, interp, "C01")
-    grid = bool(case.get("grid"))
+    # numeric composition comparison only where every requested volume lies on the 0.01 grid of the
+    # record format (decided from the volumes themselves: draining a well may produce 0.625)
+    def _on_grid(op):
+        vols = [float(x) for x in flat_f(dec(op["vol"]))] if "vol" in op else []
+        return all(abs(v * 100 - round(v * 100)) < 1e-7 for v in vols)
+
+    grid = bool(case.get("grid")) and all(_on_grid(op) for op in case["ops"])
     moved = False
     ctx.feature("device", dev)
     ctx.feature("max_volume_integer", float(case["worklist"]["max_volume"]).is_integer())
